@@ -165,3 +165,8 @@ def check(ctx):
     # leaving that section restarts the group scope's idle delivery loop - also when the group's scope is itself shielded (shared with C03/R03-d)
     from .walkers import restart_walker
     restart_walker(ctx, "R02-h")
+
+    # ---- R02-i "the group's remaining tasks are cancelled" rests on the level-triggered delivery loop keeping itself alive: the retry flag
+    # accumulates over the scope's own members *and* its child scopes (a child scope with nothing left must not clear it) (shared with C03/R03-c)
+    from .c03 import delivery_loop
+    delivery_loop(ctx, "R02-i")
